@@ -142,6 +142,8 @@ struct Mon {
     ref_stream: Option<Pin<Box<VectorSubscriberBatchedStream<Tracked>>>>,
     ref_ended: bool,
     msgs: Vec<Vec<D>>,
+    /// number of diffs published so far (logical budget of a drain)
+    diffs_published: usize,
     /// indices of the messages published by a transaction commit
     commit_msgs: std::collections::HashSet<usize>,
     subs: Vec<Sub>,
@@ -215,6 +217,7 @@ impl Mon {
                 if ds.len() > 1 {
                     self.facts.multi_msgs += 1;
                 }
+                self.diffs_published += ds.len();
                 self.msgs.push(ds);
             }
             Poll::Ready(None) => self.ref_ended = true,
@@ -284,7 +287,9 @@ impl Mon {
         // way only a Reset with at most one pending update is certainly premature
         let cap = if self.capacity_promised { self.capacity } else { 1 };
         let alive = self.final_contents.is_none();
-        let budget = if max == 0 { 10_000 } else { max };
+        // logical budget of one drain: a subscriber cannot be handed more diffs than were published (plus Resets)
+        let unbounded = 10_000usize.max(2 * self.diffs_published + 16);
+        let budget = if max == 0 { unbounded } else { max };
         for _ in 0..budget {
             let n_msgs = self.msgs.len();
             let s = &mut self.subs[i];
@@ -604,7 +609,7 @@ impl Mon {
             }
         }
         if max == 0 {
-            return div("C05", format!("subscriber s{i} answered Ready 10000 times in one drain"));
+            return div("C05", format!("subscriber s{i} answered Ready {unbounded} times in one drain"));
         }
         Ok(())
     }
@@ -646,6 +651,7 @@ fn run_inner(h: &VecHistory, deferred: std::rc::Rc<std::cell::RefCell<Option<Str
         ref_stream: Some(Box::pin(ref_sub.into_batched_stream())),
         ref_ended: false,
         msgs: vec![],
+        diffs_published: 0,
         commit_msgs: Default::default(),
         subs: vec![],
         final_contents: None,
